@@ -479,7 +479,7 @@ fn check_disconnect(w: &mut World, ci: usize, t_end_ns: u64) -> bool {
             // an answer put into the socket after the request left and before the step that
             // reported the timeout began: a step reads its socket before it looks at its timers
             let _ = &steps;
-            let answer = w.delivered.iter().find(|d| d.src == peer && d.dst == me && matches!(d.frame, Some(RFrame::Disconnect) | Some(RFrame::DisconnectAck)) && d.t_ns > own_first && d.t_ns < to).map(|d| (d.t_ns, matches!(d.frame, Some(RFrame::Disconnect))));
+            let answer = w.delivered.iter().find(|d| d.src == peer && d.dst == me && matches!(d.frame, Some(RFrame::Disconnect) | Some(RFrame::DisconnectAck)) && d.t_ns > own_first && d.t_ns < to && d.read_ns.map_or(false, |r| r <= to)).map(|d| (d.t_ns, matches!(d.frame, Some(RFrame::Disconnect))));
             if let Some((t_ans, is_req)) = answer {
                 w.viol("C09", "timeout-although-peer-answered", format!("{} (address {}) sent its Disconnect request at t={} ms, had a {} from its peer in its socket since t={} ms, and still ended with Error(Timeout) at t={} ms instead of Disconnect: the peer was reachable", name, addr, own_first / MS, if is_req { "Disconnect" } else { "DisconnectAck" }, t_ans / MS, to / MS));
             }
@@ -527,7 +527,20 @@ fn maybe_send_faults(w: &mut World, seed: u64, params: &Params, horizon_ns: u64)
     if params.flag("send_errors") {
         let mut r = Rng::new(seed ^ 0x5e4d_e440);
         w.set_send_fault_plan(SendFaultPlan::random(&mut r, horizon_ns));
+    } else if params.flag("recv_errors") {
+        let mut r = Rng::new(seed ^ 0x4ec7_e440);
+        w.set_send_fault_plan(SendFaultPlan::random_recv(&mut r, horizon_ns));
     }
+}
+
+/// true when the session's socket-fault plan fails receive calls
+fn recv_faults(w: &World) -> bool {
+    w.send_faults.as_ref().map_or(false, |p| p.recv_every != 0 || !p.recv_bursts.is_empty())
+}
+
+/// true when the session's socket-fault plan refuses sends
+fn send_faults_on(w: &World) -> bool {
+    w.send_faults.as_ref().map_or(false, |p| p.every != 0 || !p.bursts.is_empty())
 }
 
 pub fn run_lifecycle(seed: u64, params: &Params, out: &mut ScnOut) {
@@ -1526,7 +1539,7 @@ pub fn run_ep_ideal(seed: u64, params: &Params, out: &mut ScnOut) {
     }
     let nontrivial = finished && (sent_c + sent_s) >= 100;
     w.finish();
-    if w.send_faults.is_some() {
+    if send_faults_on(&w) {
         // a send the operating system refused is not a fault of the network, but the packet it
         // carried is gone all the same: the "ideal network" clauses (C05, C02, C06 pair, C07
         // completion) have lost their premise; the byte accounting, crash, payload and heap
@@ -1666,6 +1679,15 @@ fn read_steps(steps: &[u64], deliveries: &[u64]) -> Vec<u64> {
     out
 }
 
+/// Times at which the endpoint at `dst` took a frame of the connection (from `src`, of a kind
+/// `pick` accepts) out of its socket, as observed (sorted, without repeats).
+fn observed_reads(w: &World, src: SocketAddr, dst: SocketAddr, pick: &dyn Fn(&Option<RFrame>) -> bool) -> Vec<u64> {
+    let mut out: Vec<u64> = w.delivered.iter().filter(|d| d.dst == dst && d.src == src && pick(&d.frame)).filter_map(|d| d.read_ns).collect();
+    out.sort();
+    out.dedup();
+    out
+}
+
 /// Active-timeout oracle for one endpoint of one connection.
 /// `up_from`: step time of Connect; `end`: (time, was Error(Timeout)) of the terminal event, if any;
 /// `watch_until`: time until which the endpoint stayed in the active state under observation.
@@ -1707,7 +1729,120 @@ fn check_active_timeout(w: &mut World, who: &str, steps: &[u64], reads: &[u64], 
     }
 }
 
+/// C10, successor connections: a connection from an address that had an earlier one (established,
+/// used, ended by the server or by the client, forgotten or still remembered by the server). The
+/// second connection exchanges a few packets and then idles for 40..120 s on a loss-free network
+/// with keepalive on both sides; both ends are judged by the active-timeout model (a timeout needs
+/// `active_timeout_ms` without a frame READ, and with keepalive none may occur at all).
+fn run_timers_successor(seed: u64, params: &Params, out: &mut ScnOut) {
+    let mut rng = Rng::new(seed ^ 0x5cc5);
+    let verbose = params.flag("verbose");
+    let latency = *rng.pick(&[0u64, 1, 10, 50]);
+    let mut w = World::new(seed, NetCfg::ideal(latency), verbose);
+    let timeout = *rng.pick(&[5_000u64, 10_000, 20_000]);
+    let mk = |_r: &mut Rng| uflow::EndpointConfig { keepalive: true, keepalive_interval_ms: 2000, active_timeout_ms: timeout, ..Default::default() };
+    let (ccfg, scfg_ep) = (mk(&mut rng), mk(&mut rng));
+    let scfg = uflow::server::Config { max_total_connections: 8, max_active_connections: 8, enable_handshake_errors: rng.chance(0.5), endpoint_config: scfg_ep.clone() };
+    let cad = |rng: &mut Rng| -> (u64, u64) { *rng.pick(&[(MS, MS), (10 * MS, 10 * MS), (33 * MS, 33 * MS), (100 * MS, 100 * MS)]) };
+    w.bind_server(scfg, cad(&mut rng));
+    let addr = client_addr(0);
+    let srv = w.server.addr;
+    let run_for = |w: &mut World, d: u64| {
+        let until = w.now_ns + d;
+        while w.now_ns < until && !w.panicked {
+            if w.step_next().is_none() {
+                w.now_ns = until;
+            }
+        }
+    };
+    // a second, unrelated client may be talking all the while (or nobody else at all)
+    let bystander = rng.chance(0.5);
+    if bystander {
+        w.connect_client(ccfg.clone(), client_addr(1), cad(&mut rng), None);
+    }
+    // 1..3 predecessors
+    let n_pre = rng.range(1, 4);
+    for _ in 0..n_pre {
+        let p = match w.connect_client(ccfg.clone(), addr, cad(&mut rng), None) {
+            Some(p) => p,
+            None => break,
+        };
+        run_for(&mut w, rng.range(300, 1500) * MS);
+        for _ in 0..rng.range(1, 6) {
+            w.client_send(p, rng.range(12, 600) as usize, rng.below(64) as usize, rng.below(4) as u8);
+            w.server_send(addr, rng.range(12, 600) as usize, rng.below(64) as usize, rng.below(4) as u8);
+        }
+        run_for(&mut w, rng.range(100, 1500) * MS);
+        let by_server = rng.chance(0.6);
+        if by_server {
+            w.server_disconnect(addr, rng.chance(0.7));
+        } else {
+            w.client_disconnect(p, rng.chance(0.7));
+        }
+        run_for(&mut w, rng.range(300, 2500) * MS);
+        w.drop_client(p);
+        // the server forgets a connection it closed itself with the acknowledgement; one the
+        // client closed is remembered for 20 s (new SYNs are ignored meanwhile)
+        run_for(&mut w, if by_server { rng.range(0, 3000) } else { *rng.pick(&[100u64, 5000, 21_000, 25_000]) } * MS);
+    }
+    let ci = match w.connect_client(ccfg.clone(), addr, cad(&mut rng), None) {
+        Some(i) => i,
+        None => {
+            w.finish();
+            world_out(out, &mut w, false, 0, None);
+            return;
+        }
+    };
+    let t_main = w.now_ns;
+    run_for(&mut w, 25 * SEC);
+    let up = w.clients[ci].state == 1 && w.server.conn_state.get(&addr) == Some(&1);
+    if up {
+        for _ in 0..rng.range(1, 5) {
+            w.client_send(ci, rng.range(12, 600) as usize, 0, 3);
+            w.server_send(addr, rng.range(12, 600) as usize, 0, 3);
+        }
+    }
+    run_for(&mut w, rng.range(40, 120) * SEC);
+    let t_end = w.now_ns;
+    w.c.inc("c10_successor_sessions");
+    if up {
+        let conn_frames = |f: &Option<RFrame>| matches!(f, Some(RFrame::Data { .. }) | Some(RFrame::Acks { .. }) | Some(RFrame::Sync { .. }));
+        // client side
+        {
+            let steps = w.clients[ci].step_times.clone();
+            let reads: Vec<u64> = observed_reads(&w, srv, addr, &conn_frames).into_iter().filter(|&t| t >= t_main).collect();
+            let evs = w.clients[ci].events.clone();
+            if let Some(c) = evs.iter().find(|e| e.ev == Ev::Connect) {
+                let term = evs.iter().find(|e| matches!(e.ev, Ev::Disconnect | Ev::Error(_))).map(|e| (e.t_ns, e.ev == Ev::Error("timeout")));
+                check_active_timeout(&mut w, "client (successor connection)", &steps, &reads, c.t_ns, term, t_end, ccfg.active_timeout_ms);
+                if let Some((t, _)) = term {
+                    w.viol("C10", "idle-connection-timed-out-despite-keepalive", format!("successor connection of {}: the client's connection ended at t={} ms ({} ms after it was established) on a loss-free network with keepalive every 2 s on both sides and active_timeout_ms = {}", addr, t / MS, (t - c.t_ns) / MS, timeout));
+                }
+            }
+        }
+        // server side: events of the address since the main client object exists
+        {
+            let steps = w.server.step_times.clone();
+            let reads: Vec<u64> = observed_reads(&w, addr, srv, &conn_frames).into_iter().filter(|&t| t >= t_main).collect();
+            let evs: Vec<EvRec> = w.server.events.iter().filter(|(a, e)| *a == addr && e.t_ns >= t_main).map(|(_, e)| e.clone()).collect();
+            if let Some(c) = evs.iter().find(|e| e.ev == Ev::Connect) {
+                let term = evs.iter().find(|e| e.t_ns >= c.t_ns && matches!(e.ev, Ev::Disconnect | Ev::Error(_))).map(|e| (e.t_ns, e.ev == Ev::Error("timeout")));
+                check_active_timeout(&mut w, "server (successor connection)", &steps, &reads, c.t_ns, term, t_end, scfg_ep.active_timeout_ms);
+                if let Some((t, _)) = term {
+                    w.viol("C10", "idle-connection-timed-out-despite-keepalive", format!("successor connection of {}: the server's connection ended at t={} ms ({} ms after it was established) on a loss-free network with keepalive every 2 s on both sides and active_timeout_ms = {}", addr, t / MS, (t - c.t_ns) / MS, timeout));
+                }
+            }
+        }
+        w.c.inc("c10_successor_connections_checked");
+    }
+    w.finish();
+    world_out(out, &mut w, up, mix(seed, n_pre), None);
+}
+
 pub fn run_timers(seed: u64, params: &Params, out: &mut ScnOut) {
+    if !params.flag("send_errors") && !params.flag("recv_errors") && Rng::new(seed ^ 0x5cc4).chance(0.08) {
+        return run_timers_successor(seed, params, out);
+    }
     let mut rng = Rng::new(seed);
     let verbose = params.flag("verbose");
     // one scenario in seven is the plain case the keepalive clause is about: a short exchange in
@@ -1918,7 +2053,13 @@ pub fn run_timers(seed: u64, params: &Params, out: &mut ScnOut) {
     {
         let steps = w.clients[ci].step_times.clone();
         let dl: Vec<u64> = w.delivered.iter().filter(|d| d.dst == addr && d.src == srv && conn_frames(&d.frame)).map(|d| d.t_ns).collect();
-        let reads = read_steps(&steps, &dl);
+        let inferred = read_steps(&steps, &dl);
+        // observed: when the endpoint took each frame out of its socket (a failing receive call
+        // leaves the rest of the queue for a later step)
+        let reads = observed_reads(&w, srv, addr, &conn_frames);
+        if inferred != reads {
+            w.c.inc("c10_read_times_differ_from_first_step_after_delivery");
+        }
         let evs = w.clients[ci].events.clone();
         if let Some(c) = evs.iter().find(|e| e.ev == Ev::Connect) {
             // the active timeout is judged up to the endpoint's own disconnect call (after it the
@@ -1938,7 +2079,11 @@ pub fn run_timers(seed: u64, params: &Params, out: &mut ScnOut) {
     {
         let steps = w.server.step_times.clone();
         let dl: Vec<u64> = w.delivered.iter().filter(|d| d.dst == srv && d.src == addr && conn_frames(&d.frame)).map(|d| d.t_ns).collect();
-        let reads = read_steps(&steps, &dl);
+        let inferred = read_steps(&steps, &dl);
+        let reads = observed_reads(&w, addr, srv, &conn_frames);
+        if inferred != reads {
+            w.c.inc("c10_read_times_differ_from_first_step_after_delivery");
+        }
         let evs: Vec<EvRec> = w.server.events.iter().filter(|(a, _)| *a == addr).map(|(_, e)| e.clone()).collect();
         if let Some(c) = evs.iter().find(|e| e.ev == Ev::Connect) {
             let own_req = w.wire.iter().find(|r| !r.injected && r.src == srv && r.dst == addr && r.t_ns >= c.t_ns && matches!(r.frame, Some(RFrame::Disconnect))).map(|r| (r.t_ns, false));
@@ -2432,17 +2577,23 @@ fn check_reack(w: &mut World) {
         };
         let t_end = c.events.iter().filter(|e| matches!(e.ev, Ev::Disconnect | Ev::Error(_) | Ev::AppDisconnect | Ev::AppDisconnectNow | Ev::AppDrop) && e.t_ns >= t_conn).map(|e| e.t_ns).min().unwrap_or(u64::MAX).min(c.dropped_ns.unwrap_or(u64::MAX));
         let next_obj = w.clients.iter().filter(|o| o.addr == addr && o.created_ns > c.created_ns).map(|o| o.created_ns).min().unwrap_or(u64::MAX);
-        let synacks: Vec<(u64, u32)> = w.delivered.iter().filter(|d| d.src == srv && d.dst == addr && !d.injected && d.t_ns >= c.created_ns && d.t_ns < t_end.min(next_obj)).filter_map(|d| match d.frame { Some(RFrame::SynAck { nonce_ack, nonce, .. }) if nonce_ack == nc => Some((d.t_ns, nonce)), _ => None }).collect();
-        let before: Vec<u32> = synacks.iter().filter(|(t, _)| *t <= t_conn).map(|x| x.1).collect();
+        let synacks: Vec<(u64, u32, Option<u64>)> = w.delivered.iter().filter(|d| d.src == srv && d.dst == addr && !d.injected && d.t_ns >= c.created_ns && d.t_ns < t_end.min(next_obj)).filter_map(|d| match d.frame { Some(RFrame::SynAck { nonce_ack, nonce, .. }) if nonce_ack == nc => Some((d.t_ns, nonce, d.read_ns)), _ => None }).collect();
+        let before: Vec<u32> = synacks.iter().filter(|(t, _, _)| *t <= t_conn).map(|x| x.1).collect();
         let s_nonce = match before.first() {
             Some(&s) if before.iter().all(|&x| x == s) => s,
             _ => continue,
         };
         // (a) repeated SYN-ACKs read while established
-        for &(t, s) in synacks.iter().filter(|(t, _)| *t > t_conn) {
+        for &(t, s, read) in synacks.iter().filter(|(t, _, _)| *t > t_conn) {
             if s != s_nonce {
                 continue;
             }
+            // a socket whose receive calls fail hands the datagram over later: the step that
+            // took it out of the socket is observed
+            if recv_faults(w) && read.map_or(true, |r| r <= t) {
+                continue;
+            }
+            let t = if recv_faults(w) { read.unwrap() - 1 } else { t };
             // (a datagram delivered at the instant of a step may have arrived just after it: the
             // step that has certainly read it is the first one strictly later)
             let step = match c.step_times.iter().find(|&&x| x > t) {
@@ -2461,7 +2612,7 @@ fn check_reack(w: &mut World) {
             Some(t) => t,
             None => continue,
         };
-        let ack_del = w.delivered.iter().find(|d| d.src == addr && d.dst == srv && !d.injected && d.t_ns >= first_synack_sent && d.t_ns < next_obj && matches!(d.frame, Some(RFrame::Ack { nonce_ack }) if nonce_ack == s_nonce)).map(|d| d.t_ns);
+        let ack_del = w.delivered.iter().find(|d| d.src == addr && d.dst == srv && !d.injected && d.t_ns >= first_synack_sent && d.t_ns < next_obj && matches!(d.frame, Some(RFrame::Ack { nonce_ack }) if nonce_ack == s_nonce)).map(|d| if recv_faults(w) { d.read_ns.map_or(u64::MAX - 1, |r| r - 1) } else { d.t_ns });
         let ack_del = match ack_del {
             Some(t) => t,
             None => continue,
@@ -2536,7 +2687,10 @@ fn check_syn_handling(w: &mut World) {
         }
     }
     let t_last_step = w.server.step_times.last().copied().unwrap_or(0);
-    let syns: Vec<(u64, SocketAddr)> = w.delivered.iter().filter(|d| d.dst == srv && !d.injected && matches!(d.frame, Some(RFrame::Syn { version: 3, .. }))).map(|d| (d.t_ns, d.src)).collect();
+    // (a server whose receive calls fail takes a SYN out of its socket later than it arrived: the
+    // clause counts from the observed read; a SYN never read carries no obligation)
+    let rf = recv_faults(w);
+    let syns: Vec<(u64, SocketAddr)> = w.delivered.iter().filter(|d| d.dst == srv && !d.injected && matches!(d.frame, Some(RFrame::Syn { version: 3, .. })) && (!rf || d.read_ns.is_some())).map(|d| (if rf { d.read_ns.unwrap().saturating_sub(1) } else { d.t_ns }, d.src)).collect();
     let mut deaf: Option<String> = None;
     for (t, x) in syns {
         if t + 2 * gap + 200 * MS > t_last_step {
@@ -3111,6 +3265,36 @@ pub fn run_amplify(seed: u64, params: &Params, out: &mut ScnOut) {
         }
         w.c.inc("amp_flooder_addresses");
     }
+    // slow drip: a valid SYN, then one small frame every 5..20 s for minutes — whatever keeps a
+    // pending handshake (and its SYN-ACK resends) alive beyond its 22 s shows after two minutes
+    let drip = long_run || Rng::new(seed ^ 0xd419).chance(0.12);
+    if drip {
+        let mut drng = Rng::new(seed ^ 0xd41a);
+        for a in 0..n_addr {
+            if !drng.chance(0.4) {
+                continue;
+            }
+            only_undersized[a] = false;
+            let t0 = drng.range(0, 5000) * MS;
+            let nonce = drng.u32();
+            plan.push((t0, a, encode(&RFrame::Syn { version: 3, nonce, max_receive_rate: 1_000_000, max_packet_size: 1000, max_receive_alloc: 1_000_000 }), "valid-syn-fresh-nonce"));
+            let kind = drng.below(5);
+            let gap = drng.range(5, 21) * SEC;
+            let mut t = t0 + gap;
+            while t < 560 * SEC {
+                let f = match kind {
+                    0 => RFrame::Disconnect,
+                    1 => RFrame::Ack { nonce_ack: drng.u32() },
+                    2 => RFrame::Data { sequence_id: nonce.wrapping_add(1), nonce: false, datagrams: vec![] },
+                    3 => RFrame::Sync { next_frame_id: None, next_packet_id: None },
+                    _ => RFrame::DisconnectAck,
+                };
+                plan.push((t, a, encode(&f), "stray-frame"));
+                t += gap;
+            }
+            w.c.inc("amp_slow_drip_addresses");
+        }
+    }
     // on-path flooders: an address that does receive the server's SYN-ACK and answers it with the
     // right nonce, again and again (100..3000 ACKs of 9 bytes). At a server with room the first one
     // completes the handshake; at a full server it is refused, the handshake is NOT complete, and
@@ -3135,7 +3319,7 @@ pub fn run_amplify(seed: u64, params: &Params, out: &mut ScnOut) {
         w.known_addrs.push(addr_of(a));
     }
     let mut pi = 0;
-    let horizon = if long_run { 600 * SEC } else { 55 * SEC };
+    let horizon = if long_run || drip { 600 * SEC } else { 55 * SEC };
     let greet = *rng.pick(&[0usize, 2, 8]);
     let mut greeted = 0usize;
     // (time, length) of the pauses in the server's stepping; timers that come due meanwhile are
